@@ -922,6 +922,85 @@ def gen_list(rnd, plan, info, fs, heap, n=3000, workers=1):
     return Program(plan, normalize(g.ops), heap=heap, workers=workers, fs=fs, tag="list")
 
 
+DENSE_FULL = ("even", "odd", "first4", "last4")      # every 256-byte Immix line keeps a survivor next to a dead neighbour
+DENSE_PATTERNS = DENSE_FULL + ("rand4", "deadline")    # rand4: random 1..3 survivors per aligned group of four; deadline: one line per block dies
+
+
+def dense_keep(pattern, i, per_line, rnd_bits, dead_line):
+    """does the i-th object of the dense run survive the first mixed collection?"""
+    if pattern == "even":
+        return i % 2 == 0
+    if pattern == "odd":
+        return i % 2 == 1
+    if pattern == "first4":
+        return i % 4 == 0
+    if pattern == "last4":
+        return i % 4 == 3
+    if pattern == "rand4":
+        return bool(rnd_bits[i // 4] >> (i % 4) & 1)
+    if pattern == "deadline":                       # control: like `even`, but one whole line of every block dies -> reusable block
+        return i % 2 == 0 and (i // per_line) % 128 != dead_line
+    raise ValueError(pattern)
+
+
+def gen_dense_lines(rnd, plan, info, fs, heap, workers=1, blocks=3, sem="Default", pattern=None, old=None, probe="snap"):
+    """dense-lines: whole 32 KB Immix blocks filled with 128-byte (2 per 256-byte line) or 64-byte (4 per line) leaf
+    objects, survivors chosen per line so that a block can end a collection with ALL of its 128 lines marked and yet
+    contain dead objects (Block::sweep's not-reusable branch). `old`: every object first survives one collection (is
+    matured / copied into the mature Immix space) and dies afterwards; otherwise the dead ones die young. Then: an
+    exhaustive GC, a second one (same survivors: the block is full again), more deaths (whole lines) + new objects in
+    the holes, a third one. `probe` is appended after every exhaustive GC (the runner injects `snap` itself)."""
+    g = Gen(rnd, plan, info, fs, heap)
+    g.anchor()
+    pattern = pattern or rnd.choice(DENSE_PATTERNS)
+    old = rnd.random() < 0.5 if old is None else old
+    if sem not in g.sems:
+        sem = "Default"
+    per_line = 2 if pattern in ("even", "odd", "deadline") else 4
+    size = 256 // per_line
+    n = blocks * 128 * per_line + rnd.choice([0, per_line * 17, per_line * 64])
+    F = 256
+    nsp = (n + F - 1) // F
+    spines = [g.alloc(0, F, 0, "Default", slot=s) for s in range(nsp)]
+    # pad the bump cursor to a line boundary (anchor + spines + pad = 0 mod 256) when the run shares their allocator
+    used = 40 + nsp * (info["refoff"] + 24 + 8 * F)
+    pad = (-used) % 256
+    if pad:
+        g.alloc(0, 0, pad if pad >= 32 else pad + 256, "Default", slot=62)
+        g.root(0, 62, None)
+    bits = [rnd.randrange(1, 15) for _ in range(n // 4 + 1)]
+    dead_line = rnd.randrange(128)
+    keep = [dense_keep(pattern, i, per_line, bits, dead_line) for i in range(n)]
+    objs = []
+    for i in range(n):
+        x = g.alloc(0, 0, size, sem, slot=50)
+        objs.append(x)
+        if old or keep[i]:
+            g.write(spines[i // F], i % F, x)
+    g.root(0, 50, None)
+    if old:
+        g.ops.append(f"gc 0 {rnd.choice([0, 1])}")
+        for i in range(n):
+            if not keep[i]:
+                g.write(spines[i // F], i % F, None)
+    g.ops += ["gc 0 1", probe, "immix", "gc 0 1", probe, "immix"]
+    # more deaths: two whole lines per block and a random tenth of the rest; new objects go into the holes
+    l1, l2 = rnd.randrange(128), rnd.randrange(128)
+    for i in range(n):
+        if keep[i] and ((i // per_line) % 128 in (l1, l2) or rnd.random() < 0.1):
+            keep[i] = False
+            g.write(spines[i // F], i % F, None)
+    fresh = [i for i in range(n) if not keep[i]]
+    for i in rnd.sample(fresh, min(len(fresh), 300)):
+        x = g.alloc(0, 0, rnd.choice([32, 64, 128, 256]), sem, slot=50)
+        if rnd.random() < 0.5:
+            g.write(spines[i // F], i % F, x)
+    g.root(0, 50, None)
+    g.ops += ["gc 0 1", probe, "immix", "gc 0 1", probe]
+    return Program(plan, normalize([o for o in g.ops if o]), heap=heap, workers=workers, fs=fs,
+                   tag=f"dense-lines:{pattern}:{'old' if old else 'young'}:{sem}")
+
+
 def gen_churn(rnd, plan, info, fs, heap, nops=2500, workers=1):
     """small heap, a few hundred live objects in a ring of root slots, lots of garbage of mixed sizes:
     natural GCs (several per program), memory reuse right after each GC (C02)."""
@@ -1230,6 +1309,10 @@ def suite(name, seed, tier):
                                   lambda: gen_churn(rnd, plan, info, fs, heap_for(plan, rnd, True), 1500 if not thorough else 6000, w),
                                   lambda: gen_immortal(rnd, plan, info, fs, heap_for(plan, rnd), w),
                                   lambda: gen_destroy(rnd, plan, info, fs, heap_for(plan, rnd, True), w, 10 if not thorough else 40)]
+                        if plan in ("Immix", "GenImmix", "StickyImmix", "ConcurrentImmix") and info["collects"]:
+                            # dense-lines (shared with C07): full Immix blocks with per-line mixed liveness; appended LAST so
+                            # that the programs above keep their random streams
+                            mk.append(lambda: gen_dense_lines(rnd, plan, info, fs, 64 * MB, w, blocks=2))
                     elif name == "cycles":
                         if not info["collects"]:
                             continue
